@@ -226,7 +226,7 @@ def run_case(seed, tier, acc):
         if opts['kind'] == 'coherent':
             return [{'what': 'MATLAB generation failed on a coherent model', 'error': '%s: %s' % (type(e).__name__, str(e)[:200]),
                      'text': text[:2500]}], text, opts
-        acc.count('wild_generation_failed(decided elsewhere)')
+        acc.count('wild_generation_failed(decided by C10)')
         return [], text, opts
     acc.count('contract:_update_wrapper_id', CONTRACT['evals'] - before)
     exp = None
